@@ -36,7 +36,7 @@ GOMAXPROCS = [1, 4, 16]
 def tier_params(tier):
     if tier == "thorough":
         return {"snap_models": 400, "snap_ops": 300, "corr": 30000, "race_models": 260, "race_ops": 60, "early": 12}
-    return {"snap_models": 40, "snap_ops": 150, "corr": 2000, "race_models": 30, "race_ops": 40, "early": 3}
+    return {"snap_models": 40, "snap_ops": 150, "corr": 6000, "race_models": 30, "race_ops": 40, "early": 3}
 
 
 def build_harness(ctx):
@@ -127,7 +127,7 @@ def coq_op(tok):
         "rn": lambda: "Mut (MNodeRename %s %s)" % (n(p[1]), _z(p[2])),
         "aa": lambda: "Mut (MNodeAssignAttr %s %s)" % (n(p[1]), _z(p[2])),
         "ra": lambda: "Mut (MNodeRemoveAttr %s %s)" % (n(p[1]), _z(p[2])),
-        "er": lambda: "Mut (MEnumAddRef %s %s %s)" % (n(p[1]), _z(p[2]), "None" if p[3] == "-" else "(Some %s)" % _z(p[3])),
+        "er": lambda: "Mut (MEnumAddRef %s %s %s %s)" % (n(p[1]), _z(p[2]), "None" if p[3] == "-" else "(Some %s)" % _z(p[3]), "true" if p[4] == "1" else "false"),
         "av": lambda: "Mut (MEnumAddValue %s %s %s)" % (n(p[1]), _z(p[2]), _z(p[3])),
         "rv": lambda: "Mut (MEnumRemoveValue %s %s)" % (n(p[1]), _z(p[2])),
         "ri": lambda: "Mut (MEnumReindex %s %s %s)" % (n(p[1]), _z(p[2]), _z(p[3])),
